@@ -147,6 +147,8 @@ def match_known(prop: str, sig: Dict[str, Any], known: Dict[str, Any]) -> Option
         if f.get("property") != prop:
             continue
         m = f.get("match", {})
+        if any(sig.get(k) for k in f.get("unless", [])):
+            continue
         if all(k in sig and _match_value(v, sig[k]) for k, v in m.items()):
             return f
     return None
